@@ -490,6 +490,10 @@ func init() {
 		if a.profile == "collide" {
 			scs = collideScenarios()
 		}
+		if a.profile == "big" {
+			// a phase beyond the slice size limit: the default chunker fills several ObjectSlices (C13: every object once, in order)
+			scs = []Scenario{pinned("pkg-big", "img/big:v1")}
+		}
 		if a.profile == "env" {
 			// the environment dimension alone, no API faults: an unchanged Package keeps its template (C13)
 			scs = []Scenario{hostedScenario()}
@@ -511,7 +515,7 @@ func init() {
 			sc.Setup(w)
 			faults := 3
 			conflicts := 2
-			if a.profile == "env" {
+			if a.profile == "env" || a.profile == "big" {
 				faults, conflicts = 0, 0
 			}
 			flight := map[string]*Pass{}
@@ -542,7 +546,7 @@ func init() {
 				case r < 10:
 					// somebody deletes the ObjectDeployment (while the Package is paused it must not come back)
 					kd := Key{pkoGroup, "ObjectDeployment", NS, "p1"}
-					if m := w.Store.Snapshot(KPK("p1")); m != nil && w.Store.Snapshot(kd) != nil && rng.Intn(3) == 0 && a.profile != "env" {
+					if m := w.Store.Snapshot(KPK("p1")); m != nil && w.Store.Snapshot(kd) != nil && rng.Intn(3) == 0 && a.profile != "env" && a.profile != "big" {
 						if paused, _ := nestedMap(m, "spec")["paused"].(bool); paused {
 							w.EnvDelete(kd, false)
 						}
